@@ -11,7 +11,7 @@
     __default_printer(value, error, latex)     [core None]
     __scientific_printer / __latex_printer     [sci_printer]  ([core (Some order)])
     __round_values_to_sig_figs                 [round_values]
-    __find_number_of_decimals                  [find_decimals]   ([None] = math domain error)
+    __find_number_of_decimals, order_of        [find_decimals]   ([None] = math domain error), [order_of]
     the printed string                         [output]: mantissa integers, decimals, exponent *)
 From Coq Require Import ZArith QArith Qabs Qround Qpower Bool List.
 Import ListNotations.
@@ -59,13 +59,20 @@ Definition round_values (c : cfg) (v e : Q) : Q * Q :=
     else let back_off := pow10 (ord v - c_n c + 1) in
          (inject_Z (r_val rd (v / back_off)) * back_off, inject_Z (r_err rd (e / back_off)) * back_off).
 
+(** the local helper [order_of] of __find_number_of_decimals: a number that is less than a
+    relative 1e-14 below a power of ten has the order of magnitude of that power of ten *)
+Definition snap_factor : Q := 1 - (1 # 100000000000000).
+Definition order_of (x : Q) : Z :=
+  let result := ord x in
+  if Qle_bool (pow10 (result + 1) * snap_factor) (Qabs x) then (result + 1)%Z else result.
+
 (** __find_number_of_decimals; [None] when log10 is applied to 0 *)
 Definition find_decimals (c : cfg) (v e : Q) : option Z :=
   let ref := if uses_error (c_mode c)
              then (if is_zero e then v else e)
              else (if is_zero v then e else v) in
   if is_zero ref then None
-  else Some (Z.max 0 (- ord ref + c_n c - 1)).
+  else Some (Z.max 0 (- order_of ref + c_n c - 1)).
 
 (** division by 10**order in the scientific printer; absent in the default printer *)
 Definition conv (ex : option Z) (x : Q) : Q :=
